@@ -36,12 +36,12 @@ func init() {
 			"statement loops are ranges over a []data.GetValue field of the node",
 		},
 		Rules: []RuleDef{
-			{Name: "C02-CONT", Floor: 6, Doc: "in each loop node, the continue arm never proceeds to the next body statement of the same iteration", Run: c02Run},
-			{Name: "C02-OWN", Floor: 8, Doc: "a loop's break arm and a function's return arm hand back a nil control", Run: nop},
+			{Name: "C02-CONT", Floor: 3, Doc: "in each loop node, the continue arm never proceeds to the next body statement of the same iteration", Run: c02Run},
+			{Name: "C02-OWN", Floor: 3, Doc: "a loop's break arm and a function's return arm hand back a nil control", Run: nop},
 			{Name: "C02-CTL", Floor: 150, Doc: "a control returned by a child evaluation is tested, returned or passed on before the next evaluation, before it is overwritten and before the function returns", Run: nop},
 			{Name: "C02-FALL", Floor: 1, Doc: "switch: a case block that ends without a control is followed by the next block (the block evaluation sits in a loop over the cases and is not followed by an unconditional return)", Run: nop},
-			{Name: "C02-LEVEL", Floor: 5, Doc: "the level of break N / continue N is read by the loop nodes", Run: nop},
-			{Name: "C02-FRAME", Floor: 100, Doc: "evaluation methods of AST nodes keep no run-time values (data.Value, cells, contexts) in the node: a node is shared by every activation that reaches it, recursive ones included", Run: nop},
+			{Name: "C02-LEVEL", Floor: 2, Doc: "the level of break N / continue N is read by the loop nodes", Run: nop},
+			{Name: "C02-FRAME", Floor: 78, Doc: "evaluation methods of AST nodes keep no run-time values (data.Value, cells, contexts) in the node: a node is shared by every activation that reaches it, recursive ones included", Run: nop},
 			{Name: "C02-CTX", Floor: 1, Doc: "Context.CreateContext allocates a fresh variable vector for every call", Run: nop},
 		},
 	})
